@@ -290,5 +290,33 @@ def run(only=None):
     for acc in par.pmap(w_correct_all_words, tasks, nw):
         s.merge(acc)
     s.done()
+    # 5. histories of length 2: the caller owns what generate() returns
+    s = rep.sub("generate_again_after_caller_used_result", "all 2^k messages of the 7 codes: generate, overwrite the returned array in place, "
+                                                           "generate again, then check() of the second result; also check() twice on one word")
+    n_cases = 0
+    for name, cls in LIB.items():
+        n, k, d, g, ext = gf2.CODES[name]
+        for m in range(1 << k):
+            case = {"code": name, "message": format(m, f"0{k}b")}
+            try:
+                first = cls.generate(int2ba(m, k))
+                want = gf2.encode_systematic(m, n, k, g, ext)
+                try:
+                    first[:] = 1
+                except Exception:  # noqa: BLE001  (immutable result is fine)
+                    pass
+                again = cls.generate(int2ba(m, k))
+                if to_int(again) != want:
+                    s.violation("second_generate_differs_after_caller_wrote_first_result", case,
+                                "generating the same message again gives another word once the caller has modified the first result")
+                w = int2ba(want, n)
+                if not (cls.check(w) and cls.check(w)) or w != int2ba(want, n):
+                    s.violation("check_not_repeatable_or_modifies_word", case)
+            except Exception as e:  # noqa: BLE001
+                s.violation("exception_generate_again:" + exc_sig(e), case, repr(e))
+            s.case(nontrivial=True, calls=4, outcome=name, sample=case if m == 5 else None)
+            n_cases += 1
+    s.declared = n_cases
+    s.done()
     rep.bounds = {"messages": "all 2^k", "words": "all 2^n", "single_errors": "all", "double_errors_16_11_4": "all"}
     return rep.finish()
